@@ -547,6 +547,18 @@ CHECKS += [
          technique="lifted execution of bind_new_parameters / copies / pytree round trips on z3 parameter terms; z3 QF_NRA matrix-identity proofs plus structural comparisons per path"),
 ]
 
+CHECKS += [
+    dict(property_id="C52", category="other", engine=E1,
+         text="Partial (symbolic coefficients, enumerated observable lists): 8 lists of Pauli words on 1-4 wires (repeated words, single-wire words, the identity, near-identical pairs), all three "
+              "grouping types and the colouring methods lf / rlf / dsatur / gis through the REAL group_observables with one SYMBOLIC coefficient per observable: every observable lands in exactly one "
+              "group, group members pairwise satisfy the relation (independent symplectic test), and z3 proves sum_groups coeff*word == sum_i c_i*word_i Pauli word by Pauli word for all coefficients; "
+              "compute_partition_indices returns a partition of the indices with the same relation; for every qwc group diagonalize_qwc_pauli_words gives U and Z/I-only words D_k with "
+              "U (sum c_k O_k) U^dagger == sum c_k D_k for all coefficients.",
+         note=PROOF_NOTE + " Category 'other' (partial): the observable lists are enumerated, the graph libraries' algorithms are not encoded (their output is checked), optimality of the colouring, "
+              "non-Pauli observables and more than 4 wires are outside. A hand-made mutant (coefficient index list not kept in step with the observable list) is reported by 72 obligations.",
+         technique="lifted execution of the grouping utilities on z3 coefficient terms; z3 linear-identity proofs over all coefficients plus structural partition / relation checks"),
+]
+
 _NOT_BUILT = "claimed in DESIGN.md §4 but its solver-based check is not built yet in this tree"
 NOT_APPLICABLE_REASONS = {
     "C11": "declared resources depend only on discrete configurations that must each be run concretely; no symbolic dimension",
@@ -560,7 +572,6 @@ NOT_APPLICABLE_REASONS = {
     "C33": "device preprocessing: capability tables over discrete programs; the symbolic part (equivalence) is C12's",
     "C42": "program capture requires JAX tracing",
     "C48": "interface agnosticism: torch/jax/autograd kernels cannot carry solver terms",
-    "C52": "observable grouping: rustworkx/networkx colouring over discrete sets",
     "C55": "Lie-algebra tools: rank/independence via SVD/least squares",
     "C58": "block-encoding/oracle templates: QSVT/GQSP angle solvers, sqrtm/svd; no closed-form symbolic matrices",
     "C59": "Fourier tools: FFT and autodiff Jacobians",
